@@ -123,7 +123,7 @@ class EnvelopeWorld(World):
     # ------------------------------------------------------------------ configuration (swarm)
     @classmethod
     def header(cls, rng, tier, prop):
-        n_keys = rng.choice([1, 2, 2, 3, 3, 4, 5, 6, 8])
+        n_keys = rng.choice([1, 2, 2, 3, 3, 4, 5, 6, 8, 8, 12, 16])
         rate = rng.choice(["none", "low", "low", "medium", "medium"])
         gpg_bias = rng.choice([0.0, 0.3, 0.5, 1.0]) if prop != "C10" else rng.choice([0.7, 1.0])
         h = {
@@ -459,6 +459,53 @@ class EnvelopeWorld(World):
     def op_tick(self, op):
         pass
 
+    def op_bulk_junk(self, op):
+        """Many junk entries at once (a flooded signature map)."""
+        import random
+        e = op["env"]
+        if e >= len(self.envs):
+            return self.run.ev("noop")
+        r = random.Random(op["seed"])
+        for _ in range(op["n"]):
+            k = gen.junk_key(r, self.keys.pub)
+            if k not in self.keys.pub:
+                self.envs[e]["signatures"][k] = gen.junk_entry(r)
+        self.run.fault("bulk_junk")
+        self.env_faults[e].add("bulk_junk")
+
+    def op_verify_shape(self, op):
+        """An envelope that is not a two-member signed envelope must never be accepted."""
+        e = op["env"]
+        if e >= len(self.envs):
+            return self.run.ev("noop")
+        E = copy.deepcopy(self.envs[e])
+        shape = op["shape"]
+        if shape == "extra_member":
+            E["extra"] = 1
+        elif shape == "no_signed":
+            E.pop("signed", None)
+        elif shape == "no_signatures":
+            E.pop("signatures", None)
+        elif shape == "sigs_list":
+            E["signatures"] = [[k, v] for k, v in E["signatures"].items()]
+        elif shape == "sigs_none":
+            E["signatures"] = None
+        elif shape == "as_list":
+            E = [E["signatures"], E["signed"]]
+        elif shape == "renamed":
+            E["Signed"] = E.pop("signed")
+        elif shape == "nested":
+            E = {"signatures": {}, "signed": E}
+        auth, t, gpg = op["auth"], op["t"], op["gpg"]
+        o = self.calls.call("verify_signable", E, auth, t, gpg=gpg)
+        self.run.fault("malformed_envelope_" + shape)
+        if shape == "nested":
+            self._judge(E, auth, t, gpg, o, ctx="verify-nested")
+            return
+        if o.ok:
+            self.run.violate(("C01",), "accepted-malformed-envelope", "verify_signable accepted an object that is not a signed envelope (%s)" % shape,
+                             "accepted-malformed-envelope:" + shape)
+
     # ------------------------------------------------------------------ oracle
     def _judge(self, E, auth, t, gpg, o, ctx, faults=()):
         run = self.run
@@ -579,7 +626,13 @@ class EnvelopeWorld(World):
         if r < 0.90:
             return {"op": "reorder", "env": e, "rot": rng.randint(0, 5), "rev": rng.random() < 0.5,
                     "payload_rev": rng.random() < 0.5, "dt": dt}
-        if r < 0.95 and rate > 0:
+        if r < 0.92 and rate > 0:
+            auth = self._gen_auth(rng, E, wellformed=True)
+            return {"op": "verify_shape", "env": e, "auth": auth, "t": rng.randint(1, 2), "gpg": gpg, "dt": dt,
+                    "shape": rng.choice(["extra_member", "no_signed", "no_signatures", "sigs_list", "sigs_none", "as_list", "renamed", "nested"])}
+        if r < 0.935 and rate > 0:
+            return {"op": "bulk_junk", "env": e, "n": rng.choice([10, 50, 300]), "seed": rng.getrandbits(30), "dt": dt}
+        if r < 0.96 and rate > 0:
             ps = gen.paths(E["signed"])
             p = list(rng.choice(ps))
             old = gen.get_path(E["signed"], p) if p else E["signed"]
